@@ -247,6 +247,65 @@ def run(ctx):
         eq = r1 == r2
         if eq != (a == b) or (r1 != r2) == eq or (eq and hash(r1) != hash(r2)):
             ctx.violation('record equality/hash law', {'a': a, 'b': b, 'eq': eq}, key={'rec': [a, b]})
+    # every record class of the library (base classes first, then the classes derived from them) and a
+    # user-defined pair: equality/hash/repr cover ALL slots of the class, inherited and own
+    class UBase(U.MutableRecord):
+        __slots__ = 'a', 'b'
+
+    class UDerived(UBase):
+        __slots__ = 'c',
+
+    class UDerived2(UDerived):
+        __slots__ = 'd', 'e'
+
+    def walk(c):
+        yield c
+        for sc in c.__subclasses__():
+            for x in walk(sc):
+                yield x
+    rec_classes = []
+    for c in walk(U.MutableRecord):
+        if c is not U.MutableRecord and c not in rec_classes:
+            rec_classes.append(c)
+    ctx.extra['record_classes'] = len(rec_classes)
+    for c in rec_classes:
+        slots = []
+        for k in reversed(c.__mro__):
+            sl = k.__dict__.get('__slots__', ())
+            slots += [sl] if isinstance(sl, str) else list(sl)
+        import inspect
+        if inspect.isabstract(c) or not slots:
+            continue
+
+        def mk(vals, c=c, slots=slots):        # set every slot directly (some classes have their own __init__)
+            r = object.__new__(c)
+            for n, x in zip(slots, vals):
+                setattr(r, n, x)
+            return r
+        base_vals = [10 + i for i in range(len(slots))]
+        try:
+            r0, r0b = mk(base_vals), mk(base_vals)
+        except Exception as e:
+            ctx.violation('record %s cannot be built from its slots %r: %r' % (c.__name__, slots, e), {'class': c.__name__},
+                          key={'recclass': c.__name__, 'kind': 'build'})
+            continue
+        ctx.case(('recclass', c.__name__))
+        bad = None
+        if not (r0 == r0b) or (r0 != r0b) or hash(r0) != hash(r0b):
+            bad = 'two records with the same slot values are not equal / hash differently'
+        for i, sname in enumerate(slots):
+            vals = list(base_vals)
+            vals[i] = 'changed'
+            r1 = mk(vals)
+            if r0 == r1 or not (r0 != r1):
+                bad = 'records differing in slot %r compare equal' % sname
+            if '%s=%r' % (sname, base_vals[i]) not in repr(r0) and '%s=%r' % (sname, base_vals[i]) not in str(r0):
+                bad = 'repr %r does not show slot %s' % (repr(r0)[:120], sname)
+            if getattr(r1, sname) != 'changed':
+                bad = 'slot %s does not read back' % sname
+        if bad:
+            ctx.violation('record class %s (slots %r): %s' % (c.__name__, slots, bad), {'class': c.__name__, 'slots': slots},
+                          key={'recclass': c.__name__})
     V = U.Vector
     P = T.Position
     pts = [(0, 0, 0), (1, -2, 3), (2 ** 40, -7, 5), (1.5, 2.25, -0.5)]
